@@ -11,8 +11,8 @@
    single-lookup theorems apply to the process as a whole).  Concurrent downloads of the same entry therefore only ever
    come from DIFFERENT processes: that is the shared-cache machine of C16/Shared.v. *)
 From Coq Require Import List Arith Lia ZArith.
-From RM Require C12.Model C12.Proofs.
-From RM Require Import C16.Model C16.Proofs.
+From RM Require C12.Model C12.Proofs C12.FileModel C12.FileProofs.
+From RM Require Import C16.Model C16.Proofs C16.FileFetch.
 Import ListNotations.
 
 Section InProcess.
@@ -66,3 +66,37 @@ Section InProcess.
     - apply locate_log_prefix.
   Qed.
 End InProcess.
+
+(* The same for files (binaries, extra debug info): HttpSymbolSupplier::locate_file_internal keeps its own slot per (module, kind)
+   (`cached_file_paths`: the same CachedAsyncResult); C12/FileModel.v maps those slots onto C12's machine and proves that the fetch
+   closure runs at most once per file key under every schedule (C12/FileProofs.v [files_at_most_once]).  One run of the closure is one
+   [locate_file] of C16/FileFetch.v. *)
+Section InProcessFiles.
+  Variable p : path.
+  Variable locals : list bool.
+  Variable ss : list server.
+  Variable evs_of : nat -> list event.
+
+  Definition fcall (f : fs) (i : nat) : qst := FileFetch.locate_file p f locals ss (evs_of i).
+
+  Fixpoint fcalls_from (f : fs) (i n : nat) : list Z * fs :=
+    match n with
+    | O => ([], f)
+    | S n' => let s := fcall f i in
+              let '(lg, f') := fcalls_from (q_fs s) (S i) n' in (q_log s ++ lg, f')
+    end.
+
+  Definition process_file (fc : C12.FileModel.fconfig) (sched : list C12.Model.task) (fk : C12.FileModel.fkey) (f : fs) : list Z * fs :=
+    fcalls_from f 0 (C12.Model.supplier_calls (C12.Model.run (C12.FileModel.to_config fc) sched) (C12.FileModel.enc fk)).
+
+  Theorem process_file_is_one_lookup : forall fc sched fk f,
+    process_file fc sched fk f = ([], f) \/
+    process_file fc sched fk f = (q_log (fcall f 0), q_fs (fcall f 0)).
+  Proof.
+    intros fc sched fk f. unfold process_file.
+    pose proof (C12.FileProofs.files_at_most_once fc sched fk) as H.
+    destruct (C12.Model.supplier_calls (C12.Model.run (C12.FileModel.to_config fc) sched) (C12.FileModel.enc fk)) as [|[|n]];
+      [left; reflexivity| |lia].
+    right. cbn [fcalls_from]. rewrite app_nil_r. reflexivity.
+  Qed.
+End InProcessFiles.
